@@ -44,6 +44,18 @@ def shard(spec) -> Acc:
     return acc
 
 
+def core_scenarios(scenario_params):
+    """The scenarios of the quick tier, as a lookup for the thorough tier: those get the
+    thorough deviation bound, the scenarios only the thorough tier adds get the quick one
+    (a full product at the higher bound is out of reach: see DESIGN.md section 9)"""
+    def norm(params):
+        return repr(sorted((k, repr(v)) for k, v in params.items()
+                           if k not in ("sigint_cost", "_tmp")))
+
+    quick = {norm(params) for params in scenario_params("quick")}
+    return lambda params: norm(params) in quick
+
+
 def split(spec, parts):
     """The same scenario as ``parts`` shards, each exploring a share of the first deviations"""
     import copy
